@@ -1064,6 +1064,35 @@ def mon_c02_threads(spec, run):
 
 
 MONITORS["C02t"] = mon_c02_threads
+
+
+class _SubRun:
+    def __init__(self, run, trace):
+        self.trace, self.results, self.now, self.status = trace, run.results, run.now, run.status
+
+
+def mon_c02_reconnect(spec, run):
+    """connect() again on the same YncaConnection object: each link is a byte stream of its own — what the callback is told while the
+    second link is up is the independent reading of the second stream alone (a partial line left over from the first link is never
+    reported and never glued in front of the new stream)"""
+    tr = run.trace
+    opens = [e["seq"] for e in tr if e["k"] == "open"]
+    if len(opens) < 2:
+        return mon_c02_threads(spec, run)
+    cut = opens[1]
+    bad = []
+    for name, seg in (("first", [e for e in tr if e["seq"] < cut]), ("second", [e for e in tr if e["seq"] >= cut])):
+        if name == "first":
+            # a planned close() ends the first observation: lines read but not yet handled at that moment may legitimately stay unreported
+            cc = [e["seq"] for e in seg if e["k"] == "call" and e["op"][0] == "close"]
+            if cc:
+                seg = [dict(e, ctx="U0-final") if (e["k"] in ("call", "ret") and e["op"][0] == "close") else e for e in seg]
+        for k, w in mon_c02_threads(spec, _SubRun(run, seg)):
+            bad.append((k, f"{name} link of the same connection object: {w}"))
+    return bad
+
+
+MONITORS["C02r"] = mon_c02_reconnect
 MONITORS["C04r"] = _wire("mon_c04_race")
 
 
